@@ -7,6 +7,7 @@ From Coq Require Import String ZArith List Bool Lia.
 Import ListNotations.
 From Verif Require Import Base.Out Base.StableSort Base.PyValue Base.Decimal Model.Eval Model.Order Model.Exec Model.Typing.
 From Verif Require Import Proofs.OrderProofs Proofs.EvalProofs Proofs.AggProofs.
+From Verif Require Model.Dates Model.StrFuncs Proofs.StrFuncsProofs.
 Open Scope Z_scope.
 Open Scope list_scope.
 
@@ -58,16 +59,43 @@ Proof. intros H. destruct a, lo, hi; vm_compute in H; try discriminate H; now in
 Lemma in_out_bool n t : in_out n = Some t -> t = TBool.
 Proof. intros H. destruct n; vm_compute in H; now injection H as <-. Qed.
 
+(* ---- the C18 library behind the new constructors: results of the typed (total) overloads ---- *)
+Lemma lib_typed v t : has_type v t = true -> has_type (lib v) t = true.
+Proof. destruct v; simpl; auto; intros; discriminate. Qed.
+
+Lemma lib_date_part fld o : has_type (lib (Dates.date_part fld o)) TInt = true.
+Proof. unfold Dates.date_part, Dates.part_opt. destruct (Dates.punit_of fld); reflexivity. Qed.
+
+Lemma lib_date_ymd y m d : has_type (lib (StrFuncs.cast_date3 y m d)) TDate = true.
+Proof. destruct (StrFuncsProofs.cast_date3_total y m d) as [[o E]|E]; rewrite E; reflexivity. Qed.
+
+Lemma lib_parse_date s : has_type (lib (StrFuncs.parse_date s)) TDate = true.
+Proof. destruct (StrFuncsProofs.parse_date_date_or_null s) as [[o E]|E]; rewrite E; reflexivity. Qed.
+
+Lemma lib_int_of_str s : has_type (lib_x (StrFuncs.cast_int (StrFuncs.XV (VStr s)))) TInt = true.
+Proof. unfold StrFuncs.cast_int, StrFuncs.cast_int_gen. destruct (StrFuncs.parse_int s); reflexivity. Qed.
+
+Lemma lib_round_int z n : has_type (lib (StrFuncs.f_round_int z n)) TInt = true.
+Proof. unfold StrFuncs.f_round_int. destruct (0 <=? n); reflexivity. Qed.
+
+Lemma lib_parent a : has_type (lib (StrFuncs.f_parent a)) TStr = true.
+Proof. destruct a; reflexivity. Qed.
+
+Lemma lib_leaf a : has_type (lib (StrFuncs.f_leaf a)) TStr = true.
+Proof. destruct a; reflexivity. Qed.
+
 (* ---- functions: one case per (function, argument dtypes) ---- *)
 Lemma func_sound f ts t vs :
   func_out f ts = Some t -> Forall2 (fun v a => has_type v a = true) vs ts ->
   existsb is_null vs = false -> has_type (apply_func f vs) t = true.
 Proof.
   intros H F N. unfold func_out in H. destruct (func_dom f ts) eqn:D; [|discriminate H].
-  destruct f;
-    destruct ts as [|a [|b [|c [|d ts]]]];
-    try (destruct a); try (destruct b); try (destruct c);
-    cbn in D; try discriminate D;
+  (* case analysis driven by func_dom: only the argument lists it accepts are enumerated *)
+  destruct f; cbn in D; try discriminate D;
+    repeat match type of D with
+           | context [match ?x with _ => _ end] => destruct x; cbn in D; try discriminate D
+           end;
+    revert t H; repeat match goal with a : ty |- _ => destruct a end; intros t H;
     vm_compute in H; try discriminate H; injection H as <-;
     repeat match goal with
            | F : Forall2 _ _ (_ :: _) |- _ => inversion F; subst; clear F
@@ -77,8 +105,10 @@ Proof.
            | Hv : has_type ?v _ = true |- _ => destruct v; try discriminate Hv; clear Hv
            end;
     try discriminate N; try reflexivity;
-    unfold apply_func; cbn [as_num num_is_zero to_dec];
-    repeat match goal with |- context [if ?c then _ else _] => destruct c end; reflexivity.
+    first [ apply lib_date_part | apply lib_date_ymd | apply lib_parse_date | apply lib_int_of_str
+          | apply lib_round_int | apply lib_parent | apply lib_leaf
+          | unfold apply_func; cbn [as_num num_is_zero to_dec];
+            repeat match goal with |- context [if ?c then _ else _] => destruct c end; reflexivity ].
 Qed.
 
 (* ---- induction principle for the nested inductive enode ---- *)
@@ -419,7 +449,9 @@ Proof. reflexivity. Qed.
 Definition all_binop := [BAdd; BSub; BMul; BDiv; BDivInt; BMod; BEq; BNe; BLt; BLe; BGt; BGe; BMatch; BNotMatch;
                          BAddDateInt; BAddIntDate; BSubDateInt; BSubDateDate].
 Definition all_unop := [UNot; UNeg; UIsNull; UIsNotNull].
-Definition all_func := [FAbs; FNeg; FSafediv; FLength; FUpper; FLower; FBool; FIntOfDec; FDecOfInt; FSubstr].
+Definition all_func := [FAbs; FNeg; FSafediv; FLength; FUpper; FLower; FBool; FIntOfDec; FDecOfInt; FSubstr;
+  FYear; FMonth; FDay; FYearmonth; FQuarter; FWeekday; FDateAdd; FDateDiff; FDateTrunc; FDatePart; FDateBin; FDateYmd; FDate;
+  FStr; FInt; FDecimal; FSplitcomp; FMaxwidth; FRoot; FRoot1; FParent; FLeaf; FRoundInt; FRoundInt1; FRoundDec; FRoundDec1].
 Definition ty_lists3 : list (list ty) :=
   [[]] ++ map (fun a => [a]) all_ty ++ flat_map (fun a => map (fun b => [a; b]) all_ty) all_ty
   ++ flat_map (fun a => flat_map (fun b => map (fun c => [a; b; c]) all_ty) all_ty) all_ty.
@@ -462,7 +494,18 @@ Theorem func_table_spec :
    (FSafediv, [TDec; TInt], TDec); (FSafediv, [TDec; TDec], TDec); (FSafediv, [TDec; TBool], TDec);
    (FLength, [TStr], TInt); (FUpper, [TStr], TStr); (FLower, [TStr], TStr)]
   ++ map (fun a => (FBool, [a], TBool)) all_ty
-  ++ [(FIntOfDec, [TDec], TInt); (FDecOfInt, [TInt], TDec); (FSubstr, [TStr; TInt; TInt], TStr)])%list.
+  ++ [(FIntOfDec, [TDec], TInt); (FDecOfInt, [TInt], TDec); (FSubstr, [TStr; TInt; TInt], TStr)]
+  (* the C18 library (the overloads whose model is total) *)
+  ++ [(FYear, [TDate], TInt); (FMonth, [TDate], TInt); (FDay, [TDate], TInt); (FQuarter, [TDate], TStr);
+      (FWeekday, [TDate], TStr); (FDateDiff, [TDate; TDate], TInt); (FDatePart, [TStr; TDate], TInt);
+      (FDateYmd, [TInt; TInt; TInt], TDate)]
+  (* strict types do not reach the object overloads (types._bases drops object): date(<int>) is rejected *)
+  ++ map (fun a => (FDate, [a], TDate)) [TStr; TDate; TObject; TNone]
+  ++ map (fun a => (FStr, [a], TStr)) all_ty
+  ++ map (fun a => (FInt, [a], TInt)) [TInt; TStr; TBool; TObject; TNone]
+  ++ [(FDecimal, [TDec], TDec); (FDecimal, [TBool], TDec);
+      (FRoot, [TStr; TInt], TStr); (FRoot1, [TStr], TStr); (FParent, [TStr], TStr); (FLeaf, [TStr], TStr);
+      (FRoundInt, [TInt; TInt], TInt); (FRoundInt1, [TInt], TInt)])%list.
 Proof. vm_compute. reflexivity. Qed.
 
 (* the compiler rejects what no overload matches: bool operands do not reach the int overloads of binary
